@@ -227,7 +227,7 @@ def validInfoSyntax (line : String) : Bool :=
           | "score" :: "mate" :: v :: r' => if isInt v then r' else ["!"]
           | _ => ["!"]
         match r with
-        | "pv" :: ms => ms.all isMove
+        | "pv" :: ms => !ms.isEmpty && ms.all isMove   -- a completed iteration of a root with a legal move has a first PV move
         | _ => false)
      | _ => false)
   | _ => false
